@@ -26,12 +26,9 @@ Theorem C16_consulted_once_and_obeyed : forall c s i h k tag, open_query s i h -
   /\ lookup (errors s1) h = Some (EResp k tag)
   /\ attempts s1 = mark_done i (attempts s) /\ plan s1 = plan s /\ pools s1 = pools s
   /\ match d with
-     | DRetry => retries s1 = retries s + 1 /\ fin_res s1 = fin_res s /\ fin_exc s1 = fin_exc s /\
-                 (fin_exc s = None -> queue s1 = queue s ++ [TRetry true h] /\
-                                      msg_cl s1 = match dcl with Some x => Some x | None => msg_cl s end)
-     | DNextHost => retries s1 = retries s + 1 /\ fin_res s1 = fin_res s /\ fin_exc s1 = fin_exc s /\
-                 (fin_exc s = None -> queue s1 = queue s ++ [TRetry false h] /\
-                                      msg_cl s1 = match dcl with Some x => Some x | None => msg_cl s end)
+     | DRetry => retry_effect s s1 dcl (TRetry true h)       (* see C16_proofs.retry_effect: counter + 1; request not failed and *)
+     | DNextHost => retry_effect s s1 dcl (TRetry false h)   (* session open: level set, task queued, outcome untouched; session
+                                                                shut down: ConnectionShutdown; request already failed: nothing *)
      | DRethrow => fin_exc s1 = (if completed s then fin_exc s else Some (XResp k tag)) /\ fin_res s1 = fin_res s /\
                    queue s1 = queue s /\ retries s1 = retries s /\ msg_cl s1 = msg_cl s
      | DIgnore => fin_res s1 = (if completed s then fin_res s else Some FNone) /\ fin_exc s1 = fin_exc s /\
@@ -51,14 +48,15 @@ Print Assumptions C16_consulted_only_on_failure.
 (* RETRY cl: when the executor runs the retry (the request has not failed meanwhile, h's pool is usable), exactly one
    message is sent: the original request, to the same host h, at the level the policy chose *)
 Theorem C16_obeys_retry : forall c s i h k tag dcl s1 ev1 s2 ev2, open_query s i h -> fin_exc s = None ->
+  session_shut s = false ->
   pol c (nconsult s) k tag (retries s) (clarg s k) = (DRetry, dcl) ->
   step c s (Resp i (RRetryable k tag)) = (s1, ev1) -> pool_of s h = PHealthy ->
   step c s1 (Run (length (queue s))) = (s2, ev2) ->
   ev2 = [Sent h (MOrig (match dcl with Some x => Some x | None => msg_cl s end)) CRetrySame] /\ plan s2 = plan s.
 Proof.
-  intros c s i h k tag dcl s1 ev1 s2 ev2 O E P S1 Hp S2.
+  intros c s i h k tag dcl s1 ev1 s2 ev2 O E Sh P S1 Hp S2.
   pose proof (retryable_step c s i h k tag O) as R. rewrite P in R. destruct R as (s1' & R1 & _ & _ & _ & Rp & Rpo & Rd).
-  rewrite R1 in S1. inversion S1; subst s1' ev1. destruct Rd as (_ & _ & Re & Rq). destruct (Rq E) as [Q C].
+  rewrite R1 in S1. inversion S1; subst s1' ev1. destruct Rd as (_ & Rq & _). destruct (Rq E Sh) as (_ & Re & Q & C).
   destruct (run_retry_same c s1 (length (queue s)) h) as (s2' & R2 & _ & _ & Rp2).
   - rewrite Q. apply nth_error_app_last.
   - congruence.
@@ -70,6 +68,7 @@ Print Assumptions C16_obeys_retry.
 (* RETRY_NEXT_HOST cl: the executor task is exactly one send_request over the plan as it was, at the chosen level: by
    C17_order it goes to the first usable host of the remaining plan, or reports NoHostAvailable *)
 Theorem C16_obeys_next_host : forall c s i h k tag dcl s1 ev1 s2 ev2, open_query s i h -> fin_exc s = None ->
+  session_shut s = false ->
   pol c (nconsult s) k tag (retries s) (clarg s k) = (DNextHost, dcl) ->
   step c s (Resp i (RRetryable k tag)) = (s1, ev1) ->
   step c s1 (Run (length (queue s))) = (s2, ev2) ->
@@ -77,9 +76,9 @@ Theorem C16_obeys_next_host : forall c s i h k tag dcl s1 ev1 s2 ev2, open_query
               msg_cl s1' = match dcl with Some x => Some x | None => msg_cl s end /\
               send_request s1' true = (s2, ev2) /\ walked s1' (plan s) true s2 ev2.
 Proof.
-  intros c s i h k tag dcl s1 ev1 s2 ev2 O E P S1 S2.
+  intros c s i h k tag dcl s1 ev1 s2 ev2 O E Sh P S1 S2.
   pose proof (retryable_step c s i h k tag O) as R. rewrite P in R. destruct R as (s1' & R1 & _ & _ & _ & Rp & Rpo & Rd).
-  rewrite R1 in S1. inversion S1; subst s1' ev1. destruct Rd as (_ & _ & Re & Rq). destruct (Rq E) as [Q C].
+  rewrite R1 in S1. inversion S1; subst s1' ev1. destruct Rd as (_ & Rq & _). destruct (Rq E Sh) as (_ & Re & Q & C).
   rewrite (run_retry_next c s1 (length (queue s)) h) in S2; [|rewrite Q; apply nth_error_app_last|congruence].
   exists (set_queue s1 (remove_nth (length (queue s)) (queue s1))).
   split; [exact Rp|]. split; [exact Rpo|]. split; [cbn [queue set_queue]; rewrite Q; apply remove_nth_app_last|].
